@@ -163,7 +163,7 @@ def check_digest(desc):
                             _a.run(pre)
                             ch = bracket(lambda: _a.run(df), viol, 'run()', case=[g, k])
                             o = obs.observe(ch)
-                    digests['%d:%d' % (g, k)] = obs.ohash({kk: (list(o['msgs'].values()) if kk == 'msgs' else vv) for kk, vv in o.items()})
+                    digests['%d:%d' % (g, k)] = obs.ohash({kk: (list(o['msgs'].values()) if kk == 'msgs' else vv) for kk, vv in o.items() if kk != 'flag_after_msgs'})
                     tags.add('global_route_with_history')
                     evals += 1
                     continue
